@@ -39,6 +39,9 @@ func runC13(c *Ctx) {
 	c.rule("R13.2", "every caller of a protected user-call function checks its error and, when non-nil, emits an error reply and returns without reaching the success reply")
 	c.rule("R13.3", "reflective calls into user code occur only inside protected functions")
 
+	c.rule("R13.4", "the error reply for a panicking handler has somewhere to go: the writer provider handed to the dispatcher is never nil (a nil provider turns the recovered panic into a crash on the library's own goroutine)")
+	c.wsWriterChoice("R13.4")
+
 	protected := map[*ssa.Function]bool{}
 	nsites := 0
 	for _, fn := range p.Funcs {
